@@ -189,11 +189,31 @@ Theorem C16_uniform_grand_potential_density_hetero :
 Proof. exact uniform_omega_is_minus_p_hetero. Qed.
 Print Assumptions C16_uniform_grand_potential_density_hetero.
 
-(** adsorbed amount = rho * integral of one *)
-Theorem C16_uniform_moles : forall (g : grid) (rho_b : nat -> R) (s : nat),
-  moles g (uniform rho_b) s = rho_b s * W g.
+(** adsorbed amount of every component = rho_i * integral of one, for ANY segment -> component map
+    ([component_index]; [integrate_segments] gives component c the integral of its last segment), and the
+    total adsorbed amount *)
+Theorem C16_uniform_moles_per_component :
+  forall (g : grid) (S : nat) (rho_b : nat -> R) (C : nat) (comp : nat -> nat) (rho_c : nat -> R),
+  (forall s : nat, (s < S)%nat -> rho_b s = rho_c (comp s)) ->
+  (forall c : nat, (c < C)%nat -> exists s : nat, (s < S)%nat /\ comp s = c) ->
+  forall c : nat, (c < C)%nat -> moles g S comp (uniform rho_b) c = rho_c c * W g.
 Proof. exact uniform_moles. Qed.
-Print Assumptions C16_uniform_moles.
+Print Assumptions C16_uniform_moles_per_component.
+
+Theorem C16_uniform_total_moles :
+  forall (g : grid) (S : nat) (rho_b : nat -> R) (C : nat) (comp : nat -> nat) (rho_c : nat -> R),
+  (forall s : nat, (s < S)%nat -> rho_b s = rho_c (comp s)) ->
+  (forall c : nat, (c < C)%nat -> exists s : nat, (s < S)%nat /\ comp s = c) ->
+  total_moles g S C comp (uniform rho_b) = rsum rho_c C * W g.
+Proof. exact uniform_total_moles. Qed.
+Print Assumptions C16_uniform_total_moles.
+
+(** the aggregation loop of [integrate_segments]: a component receives the value shared by its segments *)
+Theorem C16_aggregate_spec : forall (comp : nat -> nat) (vals : nat -> R) (S c : nat) (v : R),
+  (exists s : nat, (s < S)%nat /\ comp s = c) ->
+  (forall s : nat, (s < S)%nat -> comp s = c -> vals s = v) -> aggregate comp vals S c = v.
+Proof. exact aggregate_spec. Qed.
+Print Assumptions C16_aggregate_spec.
 
 (** Omega = -p * integral of one *)
 Theorem C16_uniform_grand_potential :
@@ -229,16 +249,22 @@ Theorem C16_excess_grand_potential_zero_iff :
 Proof. exact excess_grand_potential_zero_iff. Qed.
 Print Assumptions C16_excess_grand_potential_zero_iff.
 
-Theorem C16_excess_moles_zero_iff : forall (g : grid) (S : nat) (rho_b : nat -> R) (V : R),
-  rho_total S rho_b <> 0 -> excess_moles g S rho_b V = 0 <-> V = W g.
+Theorem C16_excess_moles_zero_iff :
+  forall (g : grid) (S : nat) (rho_b : nat -> R) (C : nat) (comp : nat -> nat) (rho_c : nat -> R),
+  (forall s : nat, (s < S)%nat -> rho_b s = rho_c (comp s)) ->
+  (forall c : nat, (c < C)%nat -> exists s : nat, (s < S)%nat /\ comp s = c) ->
+  forall V : R, rho_total C rho_c <> 0 -> excess_moles g S rho_b C comp rho_c V = 0 <-> V = W g.
 Proof. exact excess_moles_zero_iff. Qed.
 Print Assumptions C16_excess_moles_zero_iff.
 
 (** with the volume the (repaired) library reports, on every constructed grid, all excess quantities vanish *)
 Theorem C16_uniform_excess_zero :
-  forall (g : grid) (S : nat) (rho_b m : nat -> R) (nbonds : nat -> nat) (T : R) (WD : field -> nat -> idx -> R)
-    (phi : (nat -> R) -> R) (dphi : (nat -> R) -> nat -> R) (BACK : (nat -> idx -> R) -> field)
-    (wd_b : nat -> R) (back_b : (nat -> R) -> nat -> R),
+  forall (g : grid) (S : nat) (rho_b m : nat -> R) (nbonds : nat -> nat) (T : R) (C : nat)
+    (comp : nat -> nat) (rho_c : nat -> R),
+  (forall s : nat, (s < S)%nat -> rho_b s = rho_c (comp s)) ->
+  (forall c : nat, (c < C)%nat -> exists s : nat, (s < S)%nat /\ comp s = c) ->
+  forall (WD : field -> nat -> idx -> R) (phi : (nat -> R) -> R) (dphi : (nat -> R) -> nat -> R)
+    (BACK : (nat -> idx -> R) -> field) (wd_b : nat -> R) (back_b : (nat -> R) -> nat -> R),
   (forall f f' : nat -> R, (forall a : nat, f a = f' a) -> phi f = phi f') ->
   (forall (f f' : nat -> R) (a : nat), (forall a' : nat, f a' = f' a') -> dphi f a = dphi f' a) ->
   (forall (a : nat) (i : idx), WD (uniform rho_b) a i = wd_b a) ->
@@ -248,7 +274,7 @@ Theorem C16_uniform_excess_zero :
   omega_bulk S rho_b m nbonds T phi dphi wd_b back_b = - p ->
   constructed_grid g ->
   excess_grand_potential g S rho_b m nbonds T WD phi dphi BACK p (grid_volume g) = 0 /\
-  excess_moles g S rho_b (grid_volume g) = 0.
+  excess_moles g S rho_b C comp rho_c (grid_volume g) = 0.
 Proof. exact uniform_excess_zero. Qed.
 Print Assumptions C16_uniform_excess_zero.
 
